@@ -185,6 +185,13 @@ def pipeline_cases(ctx):
         bld.samples = smp.reshape(n, w * 5).astype(np.uint32)
         if fam == "klm":
             bld.bitfield[:] = np.array([rng.choice([0, 1, 1, 2]) for _ in range(n)], dtype=np.uint16)
+        # flagged scan lines holding values unlike their neighbours: they are blanked BEFORE the criterion is evaluated,
+        # so they must not influence the 3x3 statistics of the lines next to them
+        if rng.random() < 0.6:
+            for i in rng.sample(range(1, n - 1), rng.randint(1, 2)):
+                bld.quality[i] = 1 << 31
+                smp[i] = bld.nprng.integers(100, 1000, size=smp[i].shape)
+            bld.samples = smp.reshape(n, w * 5).astype(np.uint32)
         data = bld.tobytes()
         cls = filegen.reader_class(fmt)
         kw = dict(tle_dir=filegen.tle_dir(ctx), tle_name="TLE_%(satname)s.txt", adjust_clock_drift=False)
